@@ -97,7 +97,7 @@ def sig(m):
     return (h.command_code, h.application_id, h.hop_by_hop_identifier, h.end_to_end_identifier)
 
 
-def one_step(st: int, kind: int, defect: int, raises: bool) -> bool:
+def one_step(st: int, kind: int, defect: int, raises: bool, pend: bool) -> bool:
     """
     pre: st == P["st"] and 0 <= kind < len(STEP_KINDS) and 0 <= defect < len(DEFECTS)
     post: _
@@ -106,12 +106,17 @@ def one_step(st: int, kind: int, defect: int, raises: bool) -> bool:
     st_v = STATES[P["st"]]
     k = STEP_KINDS[hx.concretize_range(kind, 0, len(STEP_KINDS))]
     d = DEFECTS[hx.concretize_range(defect, 0, len(DEFECTS))]
-    inputs = (st, kind, defect, raises)
+    inputs = (st, kind, defect, raises, pend)
     try:
         b = B.Bench(n_peers=1, stats=True)
         n, p, app = b.node, b.peers[0], b.apps[0]
         c, s = b.make_ready(p)
-        app.raise_in_handler = bool(raises)
+        if pend:
+            # a request with the very identifiers of the message under test (each side picks its identifiers independently) was
+            # received earlier on this connection and is still with the application
+            b.inject(c, mk("ccr", 71, 72))
+            drain(c)
+        app.raise_in_handler = bool(raises)              # (the unexpected-answer handler raises as well)
         app.sync_answer = {"ccr_sync_rc": "rc", "ccr_sync_no_rc": "no_rc", "undef_req_2oh_sync": "rc"}.get(k)
         if k == "cca":
             n._app_waiting_answer["71:72"] = app        # somebody once sent request 71/72: the answer goes to the application
@@ -131,6 +136,7 @@ def one_step(st: int, kind: int, defect: int, raises: bool) -> bool:
         return hx.fail(inputs, "raised " + type(e).__name__)
     answers = [m for m in out if not m.header.is_request]
     is_req = bool(msg.header.is_request)
+    # (with `pend` the earlier request stays unanswered in this step: the application does not answer here)
     ok = (len(answers) <= (1 if is_req else 0)) and all(sig(a) == sig(msg) for a in answers)
     return hx.holds(inputs, ok, ([sig(a) for a in answers], is_req, died),
                     "an answer was transmitted that does not answer exactly one received, unanswered request (or reacts to an answer)")
@@ -242,7 +248,7 @@ def wire_once(k1: int, sched: List[int], tgt: List[int]) -> bool:
 
 def specs(tier, seed, carve):
     q = tier == "quick"
-    out = [dict(id="one_step/state%d" % st, fn="one_step", params={"st": st}, timeout=600, bound="connection state %#x x 18 message kinds (incl. requests of a command without python class, decoded from the wire, with one and with two Origin-Host AVPs) x 5 defect classes (incl. T flag with the id in the retransmission window) x handler raises/returns" % STATES[st])
+    out = [dict(id="one_step/state%d" % st, fn="one_step", params={"st": st}, timeout=600, bound="connection state %#x x 18 message kinds (incl. requests of a command without python class, decoded from the wire, with one and with two Origin-Host AVPs) x 5 defect classes (incl. T flag with the id in the retransmission window) x request/answer handler raises or returns x a pending received request with the same identifiers or none" % STATES[st])
            for st in range(len(STATES))]
     out.append(dict(id="wire_once/1x2/p1", fn="wire_once", params={"producers": [["plain", "avp"]], "slots": 1, "maxstep": 90, "ks": [-1, 0, 1, 20, 21]}, timeout=1500,
                     bound="two queued answers, the first send accepting k bytes (k in {1, 20, 21, all}) or failing softly; every placement of 1 preemption between write worker and connection thread (harness/C15.fifo)"))
